@@ -779,7 +779,11 @@ func (w *WAL) truncateHeadLocked(newMin uint64) error {
 			toDelete[seg.ID] = seg.BaseIndex
 			toClose = append(toClose, seg.r)
 			newState.segments = newState.segments.Delete(seg.BaseIndex)
-			nTruncated += (maxIdx - seg.MinIndex + 1) // +1 because MaxIndex is inclusive
+			if maxIdx >= seg.MinIndex {
+				// Don't count an empty tail, it has no entries and maxIdx is not even
+				// in its range (which would underflow).
+				nTruncated += (maxIdx - seg.MinIndex + 1) // +1 because MaxIndex is inclusive
+			}
 		}
 
 		// There may not be any segments (left) but if there are, update the new
